@@ -154,7 +154,7 @@ impl<'a> DocGen<'a> {
                 }
             }
             18 if !in_attr => {
-                let body = ["", "z", "\r", "a\r\nb", "<&>", "]]", "]>"][self.rng.below(7)];
+                let body = ["", "z", "\r", "a\r\nb", "<&>", "]]", "]>", "a\nb", "\n"][self.rng.below(9)];
                 format!("<![CDATA[{}]]>", body)
             }
             19 if self.wild => ["&", "&#;", "&#x;", "&nope;", "&#0;", "&#xFFFE;", "&#xD800;", "<", "]]>", "\u{1}", "\u{FFFE}"][self.rng.below(11)].to_string(),
@@ -178,6 +178,9 @@ impl<'a> DocGen<'a> {
     }
 
     fn pi(&mut self) -> String {
+        if self.wild && self.rng.chance(1, 5) {
+            return ["<?xml version='1.0'?>", "<?xml ?>", "<?xml v?>"][self.rng.below(3)].to_string();
+        }
         let t = ["pi", "xml-stylesheet", "p.q", "XML", "xmlx"][self.rng.below(5)];
         let v = ["", " v", "  a='b' ", " ?", " >", "\tq\r\n"][self.rng.below(6)];
         format!("<?{}{}?>", t, v)
